@@ -8,6 +8,7 @@ import (
 	"time"
 
 	"github.com/simpleiot/simpleiot/client"
+	"github.com/simpleiot/simpleiot/data"
 )
 
 // C14 case: <startHex> <endHex> <weekdays,> <dateHex,> <sec> <nsec> <zoneOffsetSec>
@@ -19,6 +20,14 @@ func init() {
 
 func c14Run(c string) string {
 	f := strings.Fields(c)
+	if len(f) == 3 && f[0] == "R=" {
+		// a rule with several schedule conditions fed through the real rule client (the C13 machinery): the other place
+		// the property is observed at — the active point of schedule conditions
+		if c13NS == nil {
+			c13Init()
+		}
+		return c13Run(f[1] + " " + f[2])
+	}
 	if len(f) != 7 {
 		panic("C14: bad case")
 	}
@@ -69,6 +78,10 @@ func c14Gen(r *rand.Rand, n int, tier string) []string {
 	var out []string
 	junk := []string{"", "", "", "", "x", " ", "1", "12", ":", "ab:cd ", "9:9 ", "\xff", "7"}
 	for i := 0; i < n; i++ {
+		if i%60 == 59 {
+			out = append(out, c14RuleCase(r))
+			continue
+		}
 		start, sh, sm := c14HM(r)
 		end, eh, em := c14HM(r)
 		switch r.Intn(10) {
@@ -184,4 +197,40 @@ func c14Gen(r *rand.Rand, n int, tier string) []string {
 		out = append(out, fmt.Sprintf("%s %s %s %s %d %d %d", hxs(start), hxs(end), joinList(wds), joinList(dates), tsec, nsec, zone))
 	}
 	return out
+}
+
+// c14RuleCase: a rule made of two or three schedule conditions with different windows and weekday sets (sometimes a
+// date), and trigger times aimed at the edges of those windows: every condition's active point must follow ITS OWN
+// window and days.
+func c14RuleCase(r *rand.Rand) string {
+	rule := client.Rule{ID: "rule"}
+	var hm []string
+	for i := 0; i < 2+r.Intn(2); i++ {
+		c := client.Condition{ID: fmt.Sprintf("c%d", i), ConditionType: data.PointValueSchedule,
+			Start: pick(r, []string{"00:00", "08:30", "23:00", "2:00", "22:45", "12:00"}), End: pick(r, []string{"00:00", "09:00", "01:00", "5:00", "1:15", "17:45"})}
+		if r.Intn(4) > 0 {
+			for d := 0; d < 7; d++ {
+				c.Weekdays = append(c.Weekdays, r.Intn(3) == 0)
+			}
+		}
+		if r.Intn(6) == 0 {
+			c.Dates = []string{pick(r, []string{"2023-06-15", "2023-06-16", "2023-06-18"})}
+		}
+		hm = append(hm, c.Start, c.End)
+		rule.Conditions = append(rule.Conditions, c)
+	}
+	var cs []string
+	for _, c := range rule.Conditions {
+		cs = append(cs, c13CondStr(c))
+	}
+	rs := hxs(rule.ID) + ",0,-/" + strings.Join(cs, "+") + "/-/-"
+	var evs []string
+	for e := 0; e < 2+r.Intn(4); e++ {
+		var h, m int
+		fmt.Sscanf(pick(r, hm), "%d:%d", &h, &m)
+		day := int64(1686787200) + int64(r.Intn(7))*86400 // 2023-06-15 (a Thursday) and the six days after it
+		off := pick(r, []int64{-1800, -60, -1, 0, 1, 60, 1799, 7200})
+		evs = append(evs, fmt.Sprintf("t:%d", (day+int64(h)*3600+int64(m)*60+off)*1e9))
+	}
+	return "R= " + rs + " " + strings.Join(evs, ";")
 }
